@@ -53,6 +53,9 @@ func c02Envelopes() []c02Env {
 		{name: "unknown/x", method: "unknown/x", params: "{}", want: -32601},
 		{name: "empty method", method: "", params: "{}", want: -32601},
 		{name: "initialized with id", method: "notifications/initialized", params: "{}", want: -32600},
+		{name: "cancelled with id", method: "notifications/cancelled", params: `{"requestId":424242}`, want: -32600},
+		{name: "cancelled with id (params wrong type)", method: "notifications/cancelled", params: "5", want: -32600},
+		{name: "cancelled with id (requestId wrong type)", method: "notifications/cancelled", params: `{"requestId":true}`, want: -32600},
 		{name: "progress notification", method: "notifications/progress", params: `{"progressToken":1,"progress":1}`, notif: true},
 		{name: "unknown notification", method: "notifications/unknown", params: "{}", notif: true},
 		{name: "tools/list without id", method: "tools/list", params: "{}", notif: true},
